@@ -210,6 +210,11 @@ class SuiteResult:
         self.ops = 0
 
 
+def skey(suite):
+    """a suite entry of the registry: its name plus its argument (one suite may be registered twice)"""
+    return suite["name"] + (("/" + suite["arg"]) if suite.get("arg") else "")
+
+
 def run_suite(harness, suite, seed, tier, scratch, replay=None, extra_args=None):
     """one harness run + model + spec comparison"""
     res = SuiteResult()
@@ -489,7 +494,7 @@ def _main(prop, cfg, tier, seed, args, scratch, t0):
 
     def handle(suite, res, label):
         for e in res.errors:
-            broken.append(("correspondence", "[%s] %s" % (suite["name"], e)))
+            broken.append(("correspondence", "[%s] %s" % (skey(suite), e)))
         # every spec verdict is matched against the open known findings; the first one that no
         # finding lists is the violation
         fails = res.spec_fails or ([res.spec_div] if res.spec_div is not None else [])
@@ -498,14 +503,14 @@ def _main(prop, cfg, tier, seed, args, scratch, t0):
             if k is not None:
                 known_hits[k["id"]] = k
                 continue
-            violations.append(dict(suite=suite["name"], div=div, label=label))
+            violations.append(dict(suite=suite["name"], skey=skey(suite), div=div, label=label))
             break
         if res.model_div is not None:
             k = matches_known(known, suite["name"], res.model_div)
             if k is not None:
                 known_hits[k["id"]] = k
             else:
-                broken.append(("correspondence", "[%s] model and implementation disagree" % suite["name"], res.model_div))
+                broken.append(("correspondence", "[%s] model and implementation disagree" % skey(suite), res.model_div))
         for of in res.oracle_failures:
             case_ops = of.get("ops")
             if not case_ops and of.get("case") is not None and getattr(res, "ops_lines", None):
@@ -522,14 +527,14 @@ def _main(prop, cfg, tier, seed, args, scratch, t0):
             if k is not None:
                 known_hits[k["id"]] = k
             else:
-                violations.append(dict(suite=suite["name"], div=fake, label=label, oracle=of))
+                violations.append(dict(suite=suite["name"], skey=skey(suite), div=fake, label=label, oracle=of))
 
     if harness is not None:
         if args.replay:
             for suite in suites:
                 hdr = open(args.replay).read(4000)
                 m = re.search(r"^# suite: (\S+)", hdr, re.M)
-                if m and m.group(1) != suite["name"]:
+                if m and m.group(1) not in (suite["name"], skey(suite)):
                     continue
                 res = run_suite(harness, suite, seed, tier, scratch, replay=args.replay)
                 tot["evaluations"] += res.cases
@@ -550,7 +555,7 @@ def _main(prop, cfg, tier, seed, args, scratch, t0):
                             continue
                         hdr = open(os.path.join(cdir, fn)).read(2000)
                         m = re.search(r"^# suite: (\S+)", hdr, re.M)
-                        if m and m.group(1) != suite["name"]:
+                        if m and m.group(1) not in (suite["name"], skey(suite)):
                             continue
                         res = run_suite(harness, suite, seed, tier, scratch, replay=os.path.join(cdir, fn))
                         tot["evaluations"] += res.cases
@@ -599,7 +604,7 @@ def _main(prop, cfg, tier, seed, args, scratch, t0):
             return False
         kept = []
         for v in violations:
-            suite = next(s for s in suites if s["name"] == v["suite"])
+            suite = next(s for s in suites if skey(s) == v.get("skey", v["suite"]))
             if suite["name"] in TIMING_SUITES and str(v.get("label", "")).startswith("seed=") and v["div"].get("ops") and v["div"].get("replayable", True):
                 if reproduces(suite, v["div"]["ops"], v["div"].get("kind")):
                     kept.append(v)
@@ -614,8 +619,8 @@ def _main(prop, cfg, tier, seed, args, scratch, t0):
         for b in broken:
             if len(b) > 2 and b[0] == "correspondence":
                 sname = b[1].split("]")[0].strip("[")
-                suite = next((s for s in suites if s["name"] == sname), None)
-                if suite is not None and sname in TIMING_SUITES and b[2].get("ops"):
+                suite = next((s for s in suites if skey(s) == sname), None)
+                if suite is not None and suite["name"] in TIMING_SUITES and b[2].get("ops"):
                     if reproduces(suite, b[2]["ops"], "model"):
                         keptb.append(b)
                     else:
@@ -637,10 +642,10 @@ def _main(prop, cfg, tier, seed, args, scratch, t0):
             for sd, res in zip(seeds, results):
                 for d in (res.spec_fails or ([res.spec_div] if res.spec_div is not None else [])):
                     if matches_known(known, suite["name"], d) is None:
-                        violations.append(dict(suite=suite["name"], div=d, label="search seed=%d" % sd))
+                        violations.append(dict(suite=suite["name"], skey=skey(suite), div=d, label="search seed=%d" % sd))
                         break
                 for of in res.oracle_failures:
-                    violations.append(dict(suite=suite["name"], div=dict(ops=[of.get("what", "")], impl=[], other=[], at=0, kind="oracle"), label="search", oracle=of))
+                    violations.append(dict(suite=suite["name"], skey=skey(suite), div=dict(ops=[of.get("what", "")], impl=[], other=[], at=0, kind="oracle"), label="search", oracle=of))
             if violations:
                 break
 
@@ -657,7 +662,7 @@ def _main(prop, cfg, tier, seed, args, scratch, t0):
         rc = 1
         v = violations[0]
         div = v["div"]
-        suite = next(s for s in suites if s["name"] == v["suite"])
+        suite = next(s for s in suites if skey(s) == v.get("skey", v["suite"]))
         ops = div["ops"]
         if suite.get("shrink") == "prefix" and div.get("at") is not None:
             ops = ops[:div["at"] + 1]   # histories are only meaningful as prefixes: cut after the failing line
@@ -668,7 +673,7 @@ def _main(prop, cfg, tier, seed, args, scratch, t0):
                 notes.append("shrink failed: %s" % e)
         at = div.get("at") or 0
         lo = max(0, at - 45)
-        payload = dict(suite=v["suite"], found_by=v["label"], failing_predicate=cfg.get("predicate", "Lean Spec on implementation output"),
+        payload = dict(suite=v.get("skey", v["suite"]), found_by=v["label"], failing_predicate=cfg.get("predicate", "Lean Spec on implementation output"),
                        at_line=div.get("at"), window_from_line=lo,
                        impl=div.get("impl", [])[lo:at + 5], expected=div.get("other", [])[lo:at + 5],
                        broken_obligations=[b[1][:300] for b in broken][:6], ops=ops)
